@@ -86,9 +86,9 @@ struct CapWorld : World {
         // a message that cannot fit anywhere: blobs without data (a supported form) whose lengths add up to 2 GiB .. 8 GiB. The size query must say so
         // (64-bit size_t), and every real capacity must be refused with the buffer zeroed and nothing else touched.
         if (k.size() > 3 && k[2]) {
-            static const char *GT[] = {"b", "bb", "bbb", "sbb", "bib", "bbs"}; static const int32_t GL[] = {0x7ffffffc, 0x7ffffff0, 0x40000000, 0x7fffffff, 0x3ffffffc, 0x7ffffffd};
+            static const char *GT[] = {"b", "bb", "bbb", "sbb", "bib", "bbs"}; static const int32_t GL[] = {0x7ffffffc, 0x7ffffff0, 0x40000000, 0x7fffffff, 0x3ffffffc, 0x7ffffffd, (int32_t)0xfffffffd, (int32_t)0xfffffffe, (int32_t)0xffffffff, (int32_t)0x80000000, (int32_t)0xfffffffc};   // the last five are the length words 2^32-3 .. as the wire carries them
             uint64_t sd = (uint64_t)k[3]; const char *t = GT[sd % 6]; sd /= 6; rtosc_arg_t a[4]; size_t na = 0; uint64_t want = 4 /* "/g\0\0" */ + ((strlen(t) + 1) / 4 + 1) * 4;
-            for (const char *q = t; *q; q++) { if (*q == 'b') { int32_t L = GL[sd % 6]; sd /= 6; a[na].b.len = L; a[na].b.data = nullptr; want += 4 + (((uint64_t)(uint32_t)L + 3) & ~3ull); } else if (*q == 's') { a[na].s = "abc"; want += 4; } else { a[na].i = 7; want += 4; } na++; }
+            for (const char *q = t; *q; q++) { if (*q == 'b') { int32_t L = GL[sd % 11]; sd /= 11; a[na].b.len = L; a[na].b.data = nullptr; want += 4 + (((uint64_t)(uint32_t)L + 3) & ~3ull); } else if (*q == 's') { a[na].s = "abc"; want += 4; } else { a[na].i = 7; want += 4; } na++; }
             stat_add(P_GIANT); stat_add(P_NULL_BLOB); res.nontrivial = true; res.shape_hash = mix64(991, (uint64_t)k[3]);
             size_t n0 = rtosc_amessage(nullptr, 0, "/g", t, a); stat_add(ST_EVALS);
             if ((uint64_t)n0 != want) { snprintf(b, sizeof b, "NULL buffer: reported %zu bytes for types \"%s\" with data-less blobs, the encoding needs %llu", n0, t, (unsigned long long)want); fail("NULL-SIZE", b); }
